@@ -23,6 +23,8 @@ type mval struct {
 	s      string
 	nested []mpair
 	isMap  bool
+	// nilMap: the value is a nil *ordered.Map stored as a value (a typed nil: "null" to every encoder)
+	nilMap bool
 }
 
 type mpair struct {
@@ -80,6 +82,9 @@ func (m *mmodel) replace(old, nw string, v mval) (collided bool) {
 }
 
 func mvalEqual(a, b mval) bool {
+	if a.nilMap || b.nilMap {
+		return a.nilMap == b.nilMap
+	}
 	if a.isMap != b.isMap {
 		return false
 	}
@@ -102,6 +107,9 @@ func pairsEqual(a, b []mpair) bool {
 }
 
 func (v mval) toAny() any {
+	if v.nilMap {
+		return (*ordered.MapSA)(nil)
+	}
 	if !v.isMap {
 		return v.s
 	}
@@ -113,6 +121,9 @@ func (v mval) toAny() any {
 }
 
 func (v mval) String() string {
+	if v.nilMap {
+		return "<nil map>"
+	}
 	if !v.isMap {
 		return fmt.Sprintf("%q", v.s)
 	}
@@ -168,6 +179,8 @@ func decodeJSONObj(dec *json.Decoder) ([]mpair, error) {
 			return nil, err
 		}
 		switch x := vt.(type) {
+		case nil:
+			ps = append(ps, mpair{k: k, v: mval{nilMap: true}})
 		case string:
 			ps = append(ps, mpair{k: k, v: mval{s: x}})
 		case json.Delim:
@@ -215,6 +228,10 @@ func yamlNodePairs(n *yaml.Node) ([]mpair, error) {
 		}
 		switch v.Kind {
 		case yaml.ScalarNode:
+			if v.Tag == "!!null" {
+				ps = append(ps, mpair{k: k.Value, v: mval{nilMap: true}})
+				break
+			}
 			if v.Tag != "!!str" {
 				return nil, fmt.Errorf("yaml: value for key %q re-typed to %s (%q)", k.Value, v.Tag, v.Value)
 			}
@@ -355,8 +372,13 @@ func runC05(c *engine.Ctx) {
 			mv.nested = dd
 			return mv
 		}
-		if p.Draw(12, "val:empty?") == 11 {
+		switch p.Draw(24, "val:empty?") {
+		case 22, 23:
 			return mval{s: ""}
+		case 21:
+			if nestedVals {
+				return mval{nilMap: true}
+			}
 		}
 		return mval{s: fmt.Sprintf("v%d", valCounter)}
 	}
@@ -531,6 +553,9 @@ func runC05(c *engine.Ctx) {
 	// a string-valued shadow of A (Map[string,string], the type the pipeline env block uses): same history,
 	// values flattened to strings; its observers are compared with A's model after every operation
 	sv := func(v mval) string {
+		if v.nilMap {
+			return "<nil map>"
+		}
 		if v.isMap {
 			return pairsString(v.nested)
 		}
@@ -846,6 +871,9 @@ func anyToMval(v any) mval {
 	case string:
 		return mval{s: x}
 	case *ordered.MapSA:
+		if x == nil {
+			return mval{nilMap: true}
+		}
 		mv := mval{isMap: true}
 		x.Range(func(k string, v any) error {
 			mv.nested = append(mv.nested, mpair{k: k, v: anyToMval(v)})
